@@ -20,7 +20,8 @@ PROP = dict(
                "untyped handler and through the generated-server call sequence.",
     level_note="bounded exhaustive at model level; the real code is bound by trace validation of the executed requests only; "
                "Accept headers are rendered from abstract ranges (C07 covers the header grammar); ties between equally "
-               "acceptable offers are left open (the router holds produces in map order); the order of route.Produces is set "
+               "acceptable declared offers are left open (the router holds produces in map order), the API default type only wins when "
+               "strictly better; the order of route.Produces is set "
                "through the slice the looked-up route shares with the router; instrumented producers / Responder / error "
                "responder trusted",
     design_ref="DESIGN.md 4.8",
@@ -32,11 +33,16 @@ PROP = dict(
          "handler outcome value / nil / Responder / error of class API, plain, composite; unknown path, wrong method, "
          "unacceptable Accept, missing or wrong credentials). Exhaustive part: every produces set of <=2/<=3 pool entries in "
          "every order x default x registry, declared codes rotating (2 of 7 sets per API, 4 in thorough), each with 10 Accept shapes x 4 outcomes x "
-         "2 (4) methods x 2 entry points; 36 secured APIs (4 realms x 3 authenticator kinds x 3 sets x 3 credentials). Seeded: "
+         "2 (4) methods x 2 entry points, every method declaring its own codes, half of the APIs without operation ids, all "
+         "requests of a case served in sequence by one Context; secured APIs: basic alone, basic OR api key in both orders, "
+         "basic AND api key (4 realms x 3 authenticator kinds x credentials of both schemes); APIs without default producer "
+         "(no produces: HEAD/204 only; text-only). Seeded: "
          "300/3000 larger APIs with other parameter spellings and random Accept headers. Non-trivial: a producer was called "
          "or a Responder was handed one in the case.",
     assumptions=COMMON_ASSUME + [
-        "the API's default media type has a registered producer (Respond panics otherwise)",
+        "whenever a body is written or a Responder served, the negotiated or the default type has a registered producer "
+        "(Respond panics otherwise); HEAD requests and 204 responses are also driven on APIs without any producer",
+        "among equally acceptable offers the API's default type yields to the declared types (DefaultOfferLast)",
         "a negotiated type without registered producer is written by the default producer (what the code does; statement silent)",
         "an operation declaring no 2xx response answers 500 through the error responder (what the code does; statement silent)",
     ],
